@@ -107,6 +107,45 @@ func enumBF(tier string, yield func(fam string, f *BF) bool) {
 			}
 		}
 	}
+	// two exactly-one groups over the same names in different orders (auxiliary variables of the
+	// two groups must not interfere), with one more literal
+	{
+		base := uniqNames[:5]
+		var extra []*BF
+		extra = append(extra, bfTrue)
+		for _, n := range base {
+			extra = append(extra, bfVar(n), bfN("not", bfVar(n)))
+		}
+		ok := permutations(5, func(p []int) bool {
+			names := make([]string, 5)
+			for i, k := range p {
+				names[i] = base[k]
+			}
+			g1, g2 := bfUnique(base...), bfUnique(names...)
+			for _, x := range extra {
+				if !yield("two-groups", bfN("and", x, g1, g2)) || !yield("two-groups", bfN("or", bfN("and", g1, x), g2)) {
+					return false
+				}
+			}
+			return true
+		})
+		if !ok {
+			return
+		}
+		// groups of 6 and 7 names sharing their first and last member
+		for _, k := range []int{6, 7} {
+			b := uniqNames[:k]
+			for i := 1; i+1 < k-1; i++ {
+				sw := append([]string{}, b...)
+				sw[i], sw[i+1] = sw[i+1], sw[i]
+				for _, x := range extra {
+					if !yield("two-groups", bfN("and", x, bfUnique(b...), bfUnique(sw...))) {
+						return
+					}
+				}
+			}
+		}
+	}
 	if thorough {
 		// depth 3 over {a,b}
 		l2 := []*BF{bfVar("a"), bfVar("b")}
